@@ -6,7 +6,7 @@ from lib import gen
 from props import c04
 
 LEVEL = "proof"
-CHECKER = "lake build KalignModel.Props.C05All && lake env lean KalignModel/Audit/C05.lean"
+CHECKER = "lake build KalignModel.Props.C05All KalignModel.Props.C05IndexEx && lake env lean KalignModel/Audit/C05.lean"
 
 
 def theorems():
@@ -122,6 +122,10 @@ def run(ctx):
                         "non-trivial = distinct (mutation kinds, option kind, outcome) triples")
     thms = theorems()
     ok = C.lean_obligations(ctx, "C05", thms, module="C05All") if thms else False
+    # the index-safety theorems live in their own module (their checked twins reuse names of the SoftF32 pipeline: the two cannot be imported together)
+    pi_ = os.path.join(C.LEAN, "KalignModel", "Props", "C05Index.theorems")
+    if os.path.exists(pi_):
+        ok = C.lean_obligations(ctx, "C05Index", [l.strip() for l in open(pi_) if l.strip() and not l.startswith("#")], module="C05IndexEx") and ok
     if not thms:
         ctx.obligations.append(dict(name="Props/C05 theorems", ok=False, why="theorem list missing"))
     kvh = C.build_harness("asan")
@@ -130,6 +134,10 @@ def run(ctx):
     diffs = C.unit_correspondence(ctx, kvh, C.gen_ops("gen_io.py", ctx.seed + 500, 1 if ctx.quick else 10, prefixes=("read", "read_as", "detect_format")), "readers(malformed)")
     # whole pipeline with extreme admitted / rejected penalties (0, -0.0, subnormals, 1e6, just above, NaN, +-inf) and the k-means path: the model's
     # explicit fault values (`fault:`) must never appear and the real code must agree under ASan/UBSan
+    bp = os.path.join(C.CORPUS, "sliceAD_bounds.ops")
+    if os.path.exists(bp):
+        # kernels on full and edge rectangles (mid = 0 / len_a, profile column len+1): the accesses C05_kernel_indices_in_range is about, under ASan/UBSan
+        diffs += C.unit_correspondence(ctx, kvh, [l.strip() for l in open(bp) if l.strip()], "kernel_bounds")
     xp = os.path.join(C.CORPUS, "sliceV_extreme_params.ops")
     if os.path.exists(xp):
         xl = [l.strip() for l in open(xp) if l.strip()]
